@@ -50,6 +50,9 @@ type PoolCase struct {
 	// SchedDelayUs without looking at any context
 	SchedDelayUs int `json:"sched_delay_us,omitempty"`
 	SchedDelayAt int `json:"sched_delay_at,omitempty"`
+	// Real: the pool's ammo comes from pandora's real http provider reading this file (Prov then only carries Total,
+	// the number of ammo the file can deliver, -1 = no end); nil = the recording double described by Prov.
+	Real *RealProvPlan `json:"real_provider,omitempty"`
 }
 
 // effectiveID is the name the engine knows pool i by.
@@ -81,9 +84,13 @@ type Case struct {
 	Cancel        string     `json:"cancel"` // "" | before | during
 	CancelAfterUs int        `json:"cancel_after_us"`
 	Repeat        int        `json:"repeat"`
+	// Log: the engine's logger: "" drops everything, "debug" / "info" a logger of that level whose output needs
+	// LogWriteUs per entry (paid by the goroutine that logs).
+	Log        string `json:"log,omitempty"`
+	LogWriteUs int    `json:"log_write_us,omitempty"`
 }
 
-func genPool(t *rapid.T, faulty bool) PoolCase {
+func genPool(t *rapid.T, faulty, crowd bool) PoolCase {
 	p := PoolCase{SchedErrAt: -1}
 	p.Instances = rapid.IntRange(1, 4).Draw(t, "instances")
 	p.PerInstance = rapid.Bool().Draw(t, "perInstance")
@@ -119,10 +126,20 @@ func genPool(t *rapid.T, faulty bool) PoolCase {
 		}
 	}
 	if !faulty {
+		// one healthy pool in ten reads a well-formed file with the real http provider
+		if !crowd && rapid.IntRange(0, 9).Draw(t, "realProvider") == 5 {
+			genRealProvider(t, &p, false)
+		}
 		return p
 	}
 	delay := rapid.SampledFrom([]int{0, 0, 100, 2000, 20000}).Draw(t, "faultDelayUs")
-	switch rapid.SampledFrom([]string{"provider", "provider", "aggregator", "aggregator", "factory", "bind", "warmup", "sched", "panic", "panic", "panic"}).Draw(t, "faultKind") {
+	kinds := []string{"provider", "provider", "aggregator", "aggregator", "factory", "bind", "warmup", "sched", "panic", "panic", "panic", "real_provider", "real_provider"}
+	if crowd {
+		kinds = kinds[:11]
+	}
+	switch rapid.SampledFrom(kinds).Draw(t, "faultKind") {
+	case "real_provider":
+		genRealProvider(t, &p, true)
 	case "provider":
 		p.Prov.Fault = rapid.SampledFrom([]string{"before_first", "after_k", "at_end"}).Draw(t, "provFault")
 		p.Prov.FaultK = rapid.IntRange(0, 6).Draw(t, "provK")
@@ -157,6 +174,67 @@ func genPool(t *rapid.T, faulty bool) PoolCase {
 	return p
 }
 
+// genRealProvider: the pool reads its ammo from a file with the real http provider. failing: the file has a malformed
+// entry behind 0-20000 good ones, or no entry at all; with `preload: true` (two in three) the provider then fails before
+// its first ammo, after a loading time that grows with the file - the pool's instances start meanwhile and wait in
+// Acquire -, without preload it fails after the good entries before the bad one were handed out. Healthy: a
+// well-formed file, read 1-2 times or for ever.
+func genRealProvider(t *rapid.T, p *PoolCase, failing bool) {
+	rp := &RealProvPlan{Format: rapid.SampledFrom([]string{"uri", "uri", "raw", "jsonline"}).Draw(t, "realFormat")}
+	rp.Preload = rapid.IntRange(0, 2).Draw(t, "realPreload") != 0
+	rp.Passes = rapid.SampledFrom([]int{0, 1, 1, 2}).Draw(t, "realPasses")
+	rp.InitUs = rapid.SampledFrom([]int{0, 0, 0, 500, 5000, 20000}).Draw(t, "realInitUs")
+	if failing {
+		if rapid.IntRange(0, 3).Draw(t, "realNoEntries") == 0 {
+			shapes := map[string][]string{"uri": {"empty", "blank_lines", "headers_only"}, "raw": {"empty", "blank_lines"}, "jsonline": {"empty_array"}}
+			rp.Empty = rapid.SampledFrom(shapes[rp.Format]).Draw(t, "realEmpty")
+		} else {
+			bads := map[string][]string{"uri": {"unclosed_header", "bad_url"}, "raw": {"bad_size", "truncated"}, "jsonline": {"broken_json", "wrong_type"}}
+			rp.Bad = rapid.SampledFrom(bads[rp.Format]).Draw(t, "realBad")
+			rp.Good = rapid.SampledFrom([]int{0, 1, 3, 50, 1000, 10000}).Draw(t, "realGood")
+			rp.GoodAfter = rapid.SampledFrom([]int{0, 0, 2}).Draw(t, "realGoodAfter")
+		}
+	} else {
+		rp.Good = rapid.SampledFrom([]int{1, 3, 40, 2000}).Draw(t, "realGood")
+	}
+	if rp.Format == "uri" && rp.Good+rp.GoodAfter <= 50 && rp.Empty != "empty" {
+		rp.Inline = rapid.IntRange(0, 3).Draw(t, "realInline") == 0
+	}
+	p.Real = rp
+	p.Prov = fake.ProviderPlan{Total: rp.total()}
+}
+
+// zeroShots: the pool's profile does not hold a single shot.
+func (p PoolCase) zeroShots() bool { return p.Profile != "long" && p.Tokens == 0 }
+
+// crowdSizes: instance counts of a crowded pool: well beyond the handful the engine's own tests use and beyond any
+// fixed-size buffer of results one might expect inside the engine.
+var crowdSizes = []int{100, 150, 200, 300, 400, 600}
+
+// genCrowd: pool i has hundreds of instances (the doubles are cheap) and a minute of work, so all of them are there
+// when the run is ended from outside or by a failure, and all of them end in one burst: parked in the schedule wait (a
+// shared or a per-instance profile of 2000 shots a second in total) or - after a first instant shot - in a request
+// that takes 30 s unless the gun's context ends it.
+func genCrowd(t *rapid.T, c *Case, i int) {
+	p := &c.Pools[i]
+	p.Instances = rapid.SampledFrom(crowdSizes).Draw(t, "crowdInstances")
+	p.Profile, p.Prov.Total = "long", -1
+	// (a shot that is planned to panic must not be one that waits for the end of the run)
+	if p.Gun.PanicAtShot < 0 && rapid.Bool().Draw(t, "crowdInShot") {
+		p.Gun.ShotUs, p.Gun.ShotCtx = []int{0, 30000000}, true
+	}
+	if c.Cancel == "" && (p.Prov.Fault == "at_end" || p.Agg.Fault == "at_end") {
+		// nobody cancels and the pool's own fault waits for the end of its work, which now never comes
+		c.Cancel = "during"
+	}
+	if c.Cancel == "during" {
+		c.CancelAfterUs = rapid.SampledFrom([]int{1000, 3000, 10000, 30000, 100000, 300000}).Draw(t, "crowdCancelAfterUs")
+	}
+	if rapid.Bool().Draw(t, "crowdLog") {
+		c.Log, c.LogWriteUs = "debug", rapid.SampledFrom([]int{0, 20, 100}).Draw(t, "crowdLogWriteUs")
+	}
+}
+
 // shapes of the error a faulty provider / aggregator returns (fake.shaped)
 var errShapes = []string{"", "", "wrapped", "pkg_wrapped", "own_deadline", "own_deadline"}
 
@@ -165,12 +243,22 @@ func genCase(t *rapid.T) Case {
 	n := rapid.SampledFrom([]int{1, 1, 1, 2, 3}).Draw(t, "pools")
 	mode := rapid.SampledFrom([]string{"fault", "fault", "fault", "cancel", "both", "none"}).Draw(t, "mode")
 	faultyPool := rapid.IntRange(0, n-1).Draw(t, "faultyPool")
+	// one case in thirty has a crowded pool (rapid prefers the ends of a range)
+	crowdPool := -1
+	if rapid.IntRange(0, 29).Draw(t, "crowd") == 17 {
+		crowdPool = rapid.IntRange(0, n-1).Draw(t, "crowdPool")
+	}
 	for i := 0; i < n; i++ {
-		c.Pools = append(c.Pools, genPool(t, (mode == "fault" || mode == "both") && i == faultyPool))
+		c.Pools = append(c.Pools, genPool(t, (mode == "fault" || mode == "both") && i == faultyPool, i == crowdPool))
 	}
 	if mode == "cancel" || mode == "both" {
 		c.Cancel = rapid.SampledFrom([]string{"before", "during", "during", "during"}).Draw(t, "cancel")
 		c.CancelAfterUs = rapid.SampledFrom([]int{0, 50, 300, 1000, 3000, 10000}).Draw(t, "cancelAfterUs")
+	}
+	// the engine's logger: mostly the nop one
+	if rapid.IntRange(0, 11).Draw(t, "log") == 5 {
+		c.Log = rapid.SampledFrom([]string{"debug", "debug", "info"}).Draw(t, "logLevel")
+		c.LogWriteUs = rapid.SampledFrom([]int{0, 20, 200}).Draw(t, "logWriteUs")
 	}
 	// several pools, one fails by itself, nobody cancels: the engine has to stop the others
 	unstoppable := false
@@ -185,9 +273,15 @@ func genCase(t *rapid.T) Case {
 			endless = true
 		}
 	}
+	if crowdPool >= 0 {
+		endless = endless || !c.Pools[crowdPool].endless()
+	}
 	if endless && c.Cancel == "" && !unstoppable {
 		c.Cancel = "during"
 		c.CancelAfterUs = rapid.SampledFrom([]int{300, 3000, 10000}).Draw(t, "cancelAfterUs2")
+	}
+	if crowdPool >= 0 {
+		genCrowd(t, &c, crowdPool)
 	}
 	c.Repeat = 3
 	genIDs(t, &c)
@@ -314,6 +408,7 @@ func genSlowSteps(t *rapid.T, c *Case) {
 type poolRun struct {
 	pc       PoolCase
 	prov     *fake.Provider
+	real     *realProvider // set instead of prov when pc.Real != nil
 	guns     *fake.GunWorld
 	aggr     *fake.Aggregator
 	schedN   int32
@@ -329,9 +424,17 @@ func (pr *poolRun) stepSpans() []fake.StepSpan {
 	return append(pr.guns.StepSpans(), pr.spans...)
 }
 
-func buildPool(i int, pc PoolCase) (*poolRun, engine.InstancePoolConfig) {
+func buildPool(i int, pc PoolCase) (*poolRun, engine.InstancePoolConfig, error) {
 	pr := &poolRun{pc: pc}
 	pr.prov = fake.NewProvider(pc.Prov)
+	var provider core.Provider = pr.prov
+	if pc.Real != nil {
+		rp, err := newRealProvider(*pc.Real)
+		if err != nil {
+			return nil, engine.InstancePoolConfig{}, fmt.Errorf("harness: the real http provider of pool%d could not be constructed: %v\n--- ammo ---\n%.300q", i, err, pc.Real.render())
+		}
+		pr.real, provider = rp, rp
+	}
 	pr.guns = fake.NewGunWorld(pc.Gun)
 	pr.aggr = fake.NewAggregator(pc.Agg)
 	var calls int
@@ -358,6 +461,10 @@ func buildPool(i int, pc PoolCase) (*poolRun, engine.InstancePoolConfig) {
 			d := 5 * time.Millisecond
 			return schedule.NewConst((float64(pc.Tokens)+0.25)/d.Seconds(), d), nil
 		case "long":
+			if pc.PerInstance && pc.Instances > 4 {
+				// a crowded pool: 2000 shots a second in total
+				return schedule.NewConst(2000/float64(pc.Instances), 60*time.Second), nil
+			}
 			return schedule.NewConst(2000, 60*time.Second), nil
 		}
 		return schedule.NewOnce(int64(pc.Tokens)), nil
@@ -369,15 +476,15 @@ func buildPool(i int, pc PoolCase) (*poolRun, engine.InstancePoolConfig) {
 		return newSched()
 	}
 	return pr, engine.InstancePoolConfig{
-		ID: pc.configID(i), Provider: pr.prov, Aggregator: pr.aggr, NewGun: pr.guns.Factory,
+		ID: pc.configID(i), Provider: provider, Aggregator: pr.aggr, NewGun: pr.guns.Factory,
 		RPSPerInstance: pc.PerInstance, NewRPSSchedule: locked,
 		StartupSchedule: schedule.NewOnce(int64(pc.Instances)), DiscardOverflow: pc.DiscardOnPool,
-	}
+	}, nil
 }
 
 func (pr *poolRun) reached() []string {
 	var out []string
-	if pr.prov.FaultReached.Load() {
+	if pr.provFaultReached() {
 		out = append(out, "provider")
 	}
 	if pr.aggr.FaultReached.Load() {
@@ -429,13 +536,24 @@ const promptBound = time.Second
 func once(c Case, o *vf.Obs, classify bool) error {
 	var prs []*poolRun
 	conf := engine.Config{}
+	defer func() {
+		for _, pr := range prs {
+			if pr.real != nil {
+				pr.real.cleanup()
+			}
+		}
+	}()
 	for i, pc := range c.Pools {
-		pr, pconf := buildPool(i, pc)
+		pr, pconf, err := buildPool(i, pc)
+		if err != nil {
+			return err
+		}
 		prs = append(prs, pr)
 		conf.Pools = append(conf.Pools, pconf)
 	}
 	m := pand.Metrics()
-	eng := engine.New(pand.NopLog(), m, conf)
+	log, logged := engineLog(c.Log, c.LogWriteUs)
+	eng := engine.New(log, m, conf)
 	ctx, cancel := context.WithCancel(context.Background())
 	defer cancel()
 	var cancelAt time.Time
@@ -491,6 +609,12 @@ func once(c Case, o *vf.Obs, classify bool) error {
 	carriesFault := runErr != nil && (fake.IsInjected(runErr, "") || strings.Contains(runErr.Error(), "injected fault") ||
 		(strings.Contains(runErr.Error(), "shoot panic") &&
 			(strings.Contains(runErr.Error(), fmt.Sprint(fake.PanicMarkerInt)) || strings.Contains(runErr.Error(), "nil map"))))
+	// the failure of a real provider is carried when the run's error shows the text of the error its Run returned
+	for _, pr := range prs {
+		if pr.real != nil && pr.real.FaultReached.Load() && runErr != nil && strings.Contains(runErr.Error(), pr.real.errText()) {
+			carriesFault = true
+		}
+	}
 	switch {
 	case runErr == nil:
 		if len(reached) > 0 {
@@ -504,7 +628,7 @@ func once(c Case, o *vf.Obs, classify bool) error {
 					return fmt.Errorf("Engine.Run returned nil although the run was cancelled while pool%d still had work to do", i)
 				}
 				return fmt.Errorf("Engine.Run returned nil although pool %d (id %q) had neither used up its ammo nor its schedule: %d shots and discards, %d ammo delivered (ids of the pools: %q)",
-					i, pr.pc.effectiveID(i), pr.doneShots(), len(pr.prov.Delivered()), effectiveIDs(c))
+					i, pr.pc.effectiveID(i), pr.doneShots(), pr.provDelivered(), effectiveIDs(c))
 			}
 		}
 	case carriesFault:
@@ -537,15 +661,15 @@ func once(c Case, o *vf.Obs, classify bool) error {
 		openAtWait = openGuns(prs)
 	})
 	if !okWait {
-		return fmt.Errorf("Engine.Wait did not return within %v after Run returned %v (reached faults: %v; caller's context cancelled: %v; pools that cannot end by themselves: %v)\n%s",
-			runDeadline, runErr, reached, callerCancelled, endlessPools(c), stacks)
+		return fmt.Errorf("Engine.Wait did not return within %v after Run returned %v (reached faults: %v; caller's context cancelled: %v; pools that cannot end by themselves: %v; instances started: %d, finished: %d; %s)\n%s",
+			runDeadline, runErr, reached, callerCancelled, endlessPools(c), m.InstanceStart.Get(), m.InstanceFinish.Get(), describePools(prs), stacks)
 	}
 	if len(openAtWait) > 0 {
 		return fmt.Errorf("at the instant Engine.Wait returned (Run returned %v): %s", runErr, strings.Join(openAtWait, "; "))
 	}
 	deadline := time.Now().Add(runDeadline)
 	for i, pr := range prs {
-		for pr.prov.RunStarted.Load() && !pr.prov.RunReturned.Load() {
+		for pr.provStarted() && !pr.provReturned() {
 			if time.Now().After(deadline) {
 				return fmt.Errorf("pool%d: provider.Run has not returned %v after the run ended", i, runDeadline)
 			}
@@ -623,7 +747,7 @@ func once(c Case, o *vf.Obs, classify bool) error {
 		o.ClassIf(slowClosed && isCtxErr, "slow_gun_close_result_ctx_err")
 		o.ClassIf(slowClosed && carriesFault, "slow_gun_close_result_fault")
 		for _, pr := range prs {
-			if pr.prov.FaultReached.Load() {
+			if pr.real == nil && pr.prov.FaultReached.Load() {
 				o.Class("provider_fault_" + pr.pc.Prov.Fault)
 				o.Class("err_shape_" + pr.pc.Prov.ErrShape)
 				o.ClassIf(pr.pc.Prov.ErrShape == "own_deadline" && pr.pc.Prov.Fault == "at_end", "own_deadline_error_at_end")
@@ -636,6 +760,56 @@ func once(c Case, o *vf.Obs, classify bool) error {
 			if pr.guns.Reached("shot_panic") {
 				o.Class("panic_kind_" + pr.pc.Gun.PanicKind)
 			}
+		}
+		for _, pr := range prs {
+			if rp := pr.real; rp != nil {
+				o.Class("real_provider", "real_provider_"+rp.plan.Format)
+				o.ClassIf(rp.plan.Preload, "real_provider_preload")
+				o.ClassIf(rp.plan.InitUs > 0, "real_provider_slow_middleware_init")
+				// the shape of finding engine-own-cancel-wrapped-by-provider-fails-run (repaired): the pool is done before
+				// the provider has got anywhere, and cancels it
+				o.ClassIf(pr.pc.zeroShots(), "real_provider_pool_without_a_shot")
+				if rp.FaultReached.Load() {
+					before, parked := rp.deliveredAtFailure.Load() == 0, rp.parkedAtFailure.Load() > 0
+					o.Class("real_provider_failed")
+					o.ClassIf(rp.plan.Bad != "", "real_provider_failed_malformed_entry")
+					o.ClassIf(rp.plan.Bad == "", "real_provider_failed_file_without_entries")
+					o.ClassIf(!before, "real_provider_failed_mid_run")
+					o.ClassIf(before, "real_provider_failed_before_first_ammo")
+					o.ClassIf(before && parked, "real_provider_failed_before_first_ammo_instances_in_acquire")
+					o.ClassIf(before && rp.plan.Preload, "real_provider_failed_in_preload")
+					o.ClassIf(before && rp.plan.Preload && parked, "real_provider_failed_in_preload_instances_in_acquire")
+					o.ClassIf(before && rp.plan.Preload && parked && rp.plan.Bad != "", "real_provider_failed_in_preload_malformed_instances_in_acquire")
+					o.ClassIf(before && rp.plan.Preload && parked && rp.plan.Bad == "", "real_provider_failed_in_preload_no_entries_instances_in_acquire")
+				} else {
+					o.ClassIf(runErr == nil, "real_provider_healthy_result_nil")
+				}
+			}
+			if pr.pc.Instances >= crowdSizes[0] {
+				started := 0
+				for _, g := range pr.guns.GunsSnapshot() {
+					if g.BindOK {
+						started++
+					}
+				}
+				o.Class("crowd")
+				if started > 64 {
+					o.Class("crowd_gt_64_instances_started")
+					o.ClassIf(started > 250, "crowd_gt_250_instances_started")
+					o.ClassIf(isCtxErr, "crowd_ended_by_cancel")
+					o.ClassIf(carriesFault, "crowd_ended_by_failure")
+					o.ClassIf(carriesFault && len(pr.reached()) > 0, "crowd_ended_by_own_failure")
+					o.ClassIf(pr.pc.Gun.ShotCtx, "crowd_requests_end_with_context")
+					o.ClassIf(!pr.pc.Gun.ShotCtx, "crowd_in_schedule_wait")
+					o.ClassIf(c.Log == "debug", "crowd_debug_log")
+					o.ClassIf(c.Log == "", "crowd_nop_log")
+				}
+			}
+		}
+		o.ClassIf(c.Log != "", "log_"+c.Log)
+		o.ClassIf(c.Log != "" && c.LogWriteUs > 0, "log_slow_output")
+		if c.Log != "" {
+			o.Note("log_entries", logged.Load())
 		}
 		o.ClassIf(cancelInProgress, "cancel_in_progress")
 		if c.Cancel == "during" && cancelInProgress {
@@ -706,6 +880,20 @@ func openGuns(prs []*poolRun) []string {
 	return out
 }
 
+// describePools: one line per pool for a hang message.
+func describePools(prs []*poolRun) string {
+	var out []string
+	for i, pr := range prs {
+		d := fmt.Sprintf("pool%d: %d instances, profile %s", i, pr.pc.Instances, pr.pc.Profile)
+		if rp := pr.real; rp != nil {
+			d += fmt.Sprintf(", real %s provider (preload %v, %d good entries, bad entry %q, passes %d): Run returned: %v, error %q, %d ammo handed out, %d Acquire calls in progress",
+				rp.plan.Format, rp.plan.Preload, rp.plan.Good, rp.plan.Bad, rp.plan.Passes, rp.RunReturned.Load(), rp.errText(), rp.delivered.Load(), rp.entered.Load()-rp.left.Load())
+		}
+		out = append(out, d)
+	}
+	return strings.Join(out, "; ")
+}
+
 func endlessPools(c Case) []int {
 	out := []int{}
 	for i, pc := range c.Pools {
@@ -723,7 +911,7 @@ func workComplete(pr *poolRun, m engine.Metrics) bool {
 		return false
 	}
 	doneShots := pr.doneShots()
-	if pc.Prov.Total >= 0 && len(pr.prov.Delivered()) >= pc.Prov.Total {
+	if pc.Prov.Total >= 0 && pr.provDelivered() >= pc.Prov.Total {
 		return true // ammo used up
 	}
 	if pc.Profile == "long" {
@@ -768,7 +956,7 @@ func allOthersDone(prs []*poolRun, pr *poolRun, at time.Time) bool {
 		if q == pr {
 			continue
 		}
-		if !q.prov.RunReturned.Load() || q.prov.RunReturnAt.Load() > at.UnixNano() {
+		if !q.provReturned() || q.provReturnAt() > at.UnixNano() {
 			return false
 		}
 	}
